@@ -777,3 +777,18 @@ def g_rotgate(rng, level=0, n_random=150):
     for a in g_condense(rng, level, n_random):
         if a['g'].any():
             yield {'generator': pa.Pauli(a['g'], int(rng.integers(0, 4))), 'qubits': None}
+
+
+@gen(U + 'pauli_diagonalize2')
+def g_diag2(rng, level=0, n_random=250):
+    # all anticommuting pairs for N <= 2 and every target qubit, then random pairs up to N = 5
+    for N in (1, 2):
+        S = list(all_strings(N))
+        for a in S:
+            for b_ in S:
+                for i0 in range(N):
+                    yield {'g1': a, 'g2': b_, 'i0': i0}
+    for _ in range(n_random):
+        N = int(rng.integers(1, 6))
+        a, b_ = bits(rng, 2 * N), bits(rng, 2 * N)
+        yield {'g1': a, 'g2': b_, 'i0': int(rng.integers(0, N))}
